@@ -873,7 +873,7 @@ func init() {
 	})
 	eng.Register(&eng.Scenario{
 		Name: "sroutine-exit-swap", Props: []string{"C04", "C05", "C14"}, ObsNames: stdObs,
-		Doc:   "StateRoutineContainer (with or without retry back-off, choice): the first instance returns by itself (nil or error, choice); then SwapValue(+10) or SetState(2) (choice), then one of {nothing, RestartRoutine, SetContext(fresh,true), SetStateRoutine(new)}: the instance alive once quiet was given GetState()",
+		Doc:   "StateRoutineContainer (with or without retry back-off, choice): the first instance returns by itself (nil or error, choice); then SwapValue(+10), SetState(2), SetState(0) or SetStateRoutine(nil) (choice), then one of {nothing, RestartRoutine, SetContext(fresh,true), SetStateRoutine(new)}: the instance alive once quiet was given GetState()",
 		Quick: eng.Bounds{PB: 2, Delay: true}, Thorough: eng.Bounds{PB: 4, Delay: true},
 		Body: func() {
 			var opts []routine.Option
@@ -893,6 +893,7 @@ func init() {
 					})
 					return ch
 				},
+				setNil:     func() <-chan struct{} { ch, _, _ := k.SetStateRoutine(nil); return ch },
 				restart:    k.RestartRoutine,
 				setContext: k.SetContext,
 				clear:      k.ClearContext,
@@ -913,12 +914,17 @@ func init() {
 			if vsched.Choose(2) == 0 {
 				vsched.Settle() // the first instance has returned
 			}
-			if vsched.Choose(2) == 0 {
+			switch vsched.Choose(4) {
+			case 0:
 				vsched.CtrAdd(rCalls, 1) // (a controller call like the others)
 				o.swapState(func(v int) int { return v + 10 })
 				vsched.CtrAdd(rCallsDone, 1)
-			} else {
+			case 1:
 				doLetter(o, lState2, &cur, "")
+			case 2:
+				doLetter(o, lState0, &cur, "") // the state is cleared after the instance returned by itself
+			case 3:
+				doLetter(o, lSetNil, &cur, "") // the routine is removed after the instance returned by itself
 			}
 			if l := []int{-1, lRestart, lCtxFreshRestart, lSetRoutine}[vsched.Choose(4)]; l >= 0 {
 				doLetter(o, l, &cur, "")
@@ -934,10 +940,10 @@ func init() {
 	})
 	eng.Register(&eng.Scenario{
 		Name: "routine-withretry", Props: []string{"C14", "C05"}, ObsNames: stdObs,
-		Doc:   "RoutineContainer / StateRoutineContainer built through the other option spellings (choice): WithRetry(constant back-off config); WithRetry(config) then WithRetry(nil); WithRetry(&Backoff{}) (all defaults); NewRoutineContainerWithLogger + WithRetry; NewStateRoutineContainerWithLogger (nil compare function) + WithRetry: the first instance returns an error; with retry configured it is run again by quiescence and exactly one instance is live, without it it is not run again until RestartRoutine; every exit is reported once to the exit callback",
+		Doc:   "RoutineContainer / StateRoutineContainer built through the other option spellings (choice): WithRetry(constant back-off config); WithRetry(config) then WithRetry(nil) or WithBackoff(nil); WithRetry(&Backoff{}) (all defaults); NewRoutineContainerWithLogger + WithRetry; NewStateRoutineContainerWithLogger (nil compare function) + WithRetry: the first instance returns an error; with retry configured it is run again by quiescence and exactly one instance is live, without it it is not run again until RestartRoutine; every exit is reported once to the exit callback",
 		Quick: eng.Bounds{PB: 2}, Thorough: eng.Bounds{PB: 3},
 		Body: func() {
-			how := vsched.Choose(5)
+			how := vsched.Choose(6)
 			le := logrus.NewEntry(logrus.New())
 			le.Logger.SetOutput(io.Discard)
 			conf := &ubackoff.Backoff{BackoffKind: ubackoff.BackoffKind_BackoffKind_CONSTANT, Constant: &ubackoff.Constant{Interval: 1000}}
@@ -952,7 +958,7 @@ func init() {
 				}
 				return instance(ctx, 1, out, 0)
 			}
-			retry := how != 1
+			retry := how != 1 && how != 5
 			var restart func() bool
 			var clear func() bool
 			c := context.WithValue(context.Background(), ctxKey{}, 1)
@@ -963,10 +969,13 @@ func init() {
 				conf = &ubackoff.Backoff{}
 			}
 			switch how {
-			case 0, 1, 2, 4:
+			case 0, 1, 2, 4, 5:
 				opts := []routine.Option{routine.WithRetry(conf), exitCb}
 				if how == 1 {
 					opts = append(opts, routine.WithRetry(nil))
+				}
+				if how == 5 {
+					opts = append(opts, routine.WithBackoff(nil)) // the other spelling of "no retry"
 				}
 				var k *routine.RoutineContainer
 				if how == 2 {
